@@ -384,6 +384,42 @@ func runC20(env *Env, tier string) {
 		}
 		env.State(fmt.Sprintf("gap=%v pending=%v", gapOpen, m.pending))
 	}
+	if !m.closed && !m.expectClose && !env.Failed() && p.Connected() && !gapOpen && ch.Chance("peerstopsreading", 1, 5) {
+		// The counterparty hangs: from now on it neither sends nor READS, and the buffers in between are full -
+		// the engine's writes do not return. What reaches the wire cannot be observed any more; what remains of
+		// the statement is "if nothing arrives for another 1.2 intervals the session is disconnected and the
+		// application notified".
+		env.Stat("fault_peer_stops_reading")
+		feed()
+		if !m.closed && !env.Failed() {
+			p.EP.BlockWrites()
+			deadline := m.lastIn.Add(time.Duration(2.4*float64(m.hb)) + 2*m.slack)
+			if m.pending {
+				deadline = m.trAt.Add(time.Duration(1.2*float64(m.hb)) + m.slack)
+			}
+			// "the session is disconnected and the application notified": judged by the logout notification; the
+			// socket itself may be given a little longer to take what is queued, but must be closed in the end
+			for s.E.App.LoggedOn() && time.Now().Before(deadline.Add(m.hb/2)) {
+				env.Advance(m.hb / 4)
+			}
+			notified := !s.E.App.LoggedOn()
+			for k := 0; k < 60 && notified && !p.EP.IsClosed(); k++ {
+				env.Advance(500 * time.Millisecond)
+			}
+			closed := p.EP.IsClosed()
+			env.Note("peer stopped reading: notified=%v closed=%v blocked writes=%d", notified, closed, p.EP.BlockedWrites)
+			p.EP.UnblockWrites()
+			env.Settle()
+			if !notified {
+				env.Violate("C20/dead-peer-not-disconnected/peer-stopped-reading", "a counterparty that neither sends nor reads is still connected %v after its last message (interval %v): the session waits for a write to return", time.Since(m.lastIn), m.hb)
+			} else if !closed {
+				env.Violate("C20/connection-left-open", "the session has ended (OnLogout) but the connection to the counterparty that stopped reading is still open 30 s later")
+			} else {
+				env.Stat("probe_dead_peer_disconnect_while_writes_block")
+			}
+			m.closed = true
+		}
+	}
 	if m.closed {
 		env.Nontrivial = true
 	}
